@@ -199,7 +199,8 @@ class _Base(Driver):
 
 OMEGA = [b"", b"\x00", b"\x80", b"\x01", b"\x81", b"\x7f", b"\xff", b"\x10", b"\x11", b"\x00\x00", b"\x00\x80", b"\x01\x00",
          b"\xff\x7f", b"\xff\xff\x7f", b"\xff\xff\xff\x7f", b"\xff\xff\xff\xff", b"\x00\x00\x00\x00\x80",
-         b"\x01\x00\x00\x00\x00", b"\xff\xff\xff\xff\x7f", b"\xaa" * 520, b"\xaa" * 521]
+         b"\x01\x00\x00\x00\x00", b"\xff\xff\xff\xff\x7f", b"\xaa" * 520, b"\xaa" * 521,
+         b"\x80\x80", b"\x00\x80\x80", b"\x80\x00"]      # non-zero values made only of 0x00 / 0x80 bytes (true, unlike 0x..0080)
 OMEGA_HEX = [x.hex() for x in OMEGA]
 TERNARY = (R.OP_WITHIN, R.OP_ROT, R.OP_3DUP, R.OP_PICK, R.OP_ROLL, R.OP_CHECKMULTISIG, R.OP_CHECKMULTISIGVERIFY)
 NOPS = tuple(range(0xb0, 0xba))
@@ -512,6 +513,13 @@ def sig_variants(d, zf, dother):
     out["r0"] = R.der_sig(0, s) + b"\x01"
     out["s0"] = R.der_sig(r, 0) + b"\x01"
     out["rN"] = R.der_sig(R.N, s) + b"\x01"
+    # R or S at or beyond the group order: Core's low-S test sees the zeroed signature (not high), CHECKSIG then just fails
+    out["sN+5"] = R.der_sig(5, R.N + 5) + b"\x01"
+    out["sN"] = R.der_sig(5, R.N) + b"\x01"
+    out["sN-1"] = R.der_sig(5, R.N - 1) + b"\x01"
+    out["smax"] = R.der_sig(5, (1 << 256) - 1) + b"\x01"
+    out["rN+1_highS"] = R.der_sig(R.N + 1, R.N - s) + b"\x01"
+    out["rmax_highS"] = R.der_sig((1 << 256) - 1, R.N - 1) + b"\x01"
     dd = bytearray(der)
     out["seqlen+1"] = bytes([0x30, dd[1] + 1]) + bytes(dd[2:]) + b"\x01"
     out["seqlen-1"] = bytes([0x30, dd[1] - 1]) + bytes(dd[2:]) + b"\x01"
@@ -545,6 +553,16 @@ def sig_variants(d, zf, dother):
     out["long-len-80"] = b"\x30\x80" + bytes(dd[2:]) + b"\x01"
     out["r-long-len-88"] = bytes(dd[:3]) + b"\x88" + bytes(dd[4:]) + b"\x01"
     return out
+
+
+def der_padded(r, s, padr):
+    """lax-DER signature whose R carries `padr` superfluous leading zero bytes (long-form lengths where needed)"""
+    def ln(n):
+        return bytes([n]) if n < 0x80 else bytes([0x81, n]) if n < 0x100 else bytes([0x82, n >> 8, n & 0xff])
+    rb = b"\x00" * padr + R.der_int(r)[2:]
+    sb = R.der_int(s)[2:]
+    body = b"\x02" + ln(len(rb)) + rb + b"\x02" + ln(len(sb)) + sb
+    return b"\x30" + ln(len(body)) + body
 
 
 def pk_variants(Q):
@@ -753,6 +771,11 @@ class L4(_Base):
                     fullM = R.push_data(sigM) + tailM
                     sigN = R.der_sig(*R.ecdsa_sign(d, zfor(fullM, ht))) + HT
                     shapes2["multisig-then-checksig"] = (fullM, [sigN, b"", sigM])
+                    # signature blobs beyond the direct-push range (lax DER, R padded with leading zeros): FindAndDelete must look
+                    # for the PUSHDATA1 / PUSHDATA2 form of the push
+                    for padr, lname in ((12, "long-pushdata1"), (200, "long-pushdata2")):
+                        sigL = der_padded(*R.ecdsa_sign(d, zfor(tail1, ht)), padr) + HT
+                        shapes2["embedded-" + lname] = (R.push_data(sigL) + tail1, [sigL])
                     for nm, (script, args) in shapes2.items():
                         for f in (0, R.NULLFAIL, R.STRICTENC | R.DERSIG | R.LOW_S):
                             c = self._spend_case(mode, script, args, f, "findanddelete", dict(shape=nm, ht=ht, mode=mode), 0)
